@@ -255,6 +255,32 @@ def choose_count(rng, tmpl_block, opts):
     return 255 if small else rng.randint(4, 40)
 
 
+def _maybe_all_falsy(tb, ent, opts):
+    """One entry in sixteen carries the 'nothing' value of every field's type at once (0, 0.0, zero vector, zero UUID, 0.0.0.0,
+    empty string): legitimate values that `if x:` style code treats as absent. Decided from the entry's own content, so the
+    random stream of the caller is the same with and without this."""
+    import zlib
+    if zlib.crc32(repr(sorted(ent.items())).encode("utf8", "replace")) % 16:
+        return
+    for var in tb.variables:
+        vs = ent[var.name]
+        kind = vs[0]
+        if kind == "i":
+            ent[var.name] = ["i", 0]
+        elif kind == "f":
+            ent[var.name] = ["f", 0.0]
+        elif kind in ("v3", "v4", "q"):
+            ent[var.name] = [kind, [0.0] * len(vs[1])]
+        elif kind == "u":
+            ent[var.name] = ["u", "00000000-0000-0000-0000-000000000000"]
+        elif kind == "ip":
+            ent[var.name] = ["ip", "0.0.0.0"]
+        elif var.type == MsgType.MVT_VARIABLE and kind == "s":
+            ent[var.name] = ["s", ""]
+        elif var.type == MsgType.MVT_VARIABLE and kind == "b":
+            ent[var.name] = ["b", b""]
+
+
 def gen_spec(rng, tmpl, opts=None):
     """Generate one message spec for a template."""
     opts = opts or {}
@@ -282,6 +308,7 @@ def gen_spec(rng, tmpl, opts=None):
                     ent[var.name] = ["unset"]
                 else:
                     ent[var.name] = gen_value(rng, var, opts)
+            _maybe_all_falsy(tb, ent, opts)
             entries.append(ent)
         blocks.append([tb.name, entries])
 
